@@ -124,6 +124,12 @@ def build_corpus(tier):
     rej("auto t = %s - vb_gp; (void)t;" % T("long"), "tainted<long> - raw int*")
     rej("auto t = %s + vb_gp; (void)t;" % V("long"), "tainted_volatile<long> + raw int*")
     rej("auto t = %s + vb_gcp; (void)t;" % T("unsigned long"), "tainted<unsigned long> + raw char*")
+    for lt_ in ("VbEnum", "bool", "char", "short", "unsigned char", "long long"):
+        rej("auto t = %s + vb_gp; (void)t;" % T(lt_), "tainted<%s> + raw int* (every left operand type that promotes to an integer)" % lt_)
+    rej("auto t = %s + vb_gp; (void)t;" % V("VbEnum"), "tainted_volatile<VbEnum> + raw int*")
+    rej("auto t = %s + %s; (void)t;" % (T("VbEnum"), T("int*")), "tainted<VbEnum> + tainted<int*> (unchecked native pointer arithmetic)")
+    rej("auto t = %s + %s; (void)t;" % (T("long"), T("int*")), "tainted<long> + tainted<int*> (unchecked native pointer arithmetic)")
+    rej("auto t = 3 + %s; (void)t;" % T("int*"), "3 + tainted<int*> (unchecked native pointer arithmetic)")
     # free / stdlib on foreign wrappers
     rej("%s.free_in_sandbox(%s);" % (S, T("int*", other)), "free_in_sandbox with another sandbox type's pointer")
     rej("rlbox::memcpy(%s, %s, %s, 4u);" % (S, T("int*", other), T("int*")), "memcpy with another sandbox type's destination")
